@@ -1304,6 +1304,85 @@ Qed.
 Lemma argmax_none x : argmax C cleb x = None <-> x = [].
 Proof using. destruct x; cbn [argmax]; split; intros H; congruence. Qed.
 
+(* ---- scale invariance: x -> g x (g <> 0) keeps the interpolated index and scales the value ---- *)
+Hypothesis ceqb_refl : forall a, ceqb a a = true.
+
+Lemma mul_ne0 a b : a <> 0 -> b <> 0 -> a * b <> 0.
+Proof using Cf.
+  intros Ha Hb H. apply Hb. assert (E : b = cinv a * (a * b)) by (field; exact Ha). rewrite E, H. ring.
+Qed.
+
+(* the only case in which the offset is NOT scale invariant is zero curvature with a
+   non-zero slope (the guard then divides by 1); it cannot occur when the middle sample is
+   a maximum (a + c = 2b with a, c <= b forces a = b = c) *)
+Lemma parab_scale g a b c : g <> 0 ->
+  parab_p0 C c1 cadd cmul copp cinv a b c <> 0 \/ parab_p1 C c1 cadd cmul copp cinv a c = 0 ->
+  ipeak (g * a) (g * b) (g * c) = ipeak a b c /\
+  maxi (g * a) (g * b) (g * c) = g * maxi a b c.
+Proof using Cf ceqb_true ceqb_refl two_ne0.
+  intros Hg Hnd.
+  assert (Hp0 : parab_p0 C c1 cadd cmul copp cinv (g * a) (g * b) (g * c)
+                = g * parab_p0 C c1 cadd cmul copp cinv a b c)
+    by (unfold parab_p0, half, csub; field; exact two_ne0).
+  assert (Hp1 : parab_p1 C c1 cadd cmul copp cinv (g * a) (g * c)
+                = g * parab_p1 C c1 cadd cmul copp cinv a c)
+    by (unfold parab_p1, half, csub; field; exact two_ne0).
+  assert (Hip : ipeak (g * a) (g * b) (g * c) = ipeak a b c).
+  { unfold parab_ipeak. rewrite Hp0, Hp1.
+    set (p0 := parab_p0 C c1 cadd cmul copp cinv a b c) in *.
+    set (p1 := parab_p1 C c1 cadd cmul copp cinv a c) in *.
+    destruct (ceqb p0 0) eqn:E.
+    - apply ceqb_true in E. destruct Hnd as [Hnd|Hnd]; [contradiction|].
+      rewrite E, Hnd. replace (g * 0) with 0 by ring. rewrite ceqb_refl. reflexivity.
+    - assert (Hp : p0 <> 0) by (intros H; rewrite H, ceqb_refl in E; discriminate).
+      pose proof (mul_ne0 g p0 Hg Hp) as Hgp.
+      destruct (ceqb (g * p0) 0) eqn:E2; [apply ceqb_true in E2; contradiction|].
+      unfold half. field. repeat split; assumption. }
+  split; [exact Hip|].
+  unfold parab_maxi. rewrite Hip, Hp0, Hp1. ring.
+Qed.
+
+Variable g : C.
+Hypothesis g_ne0 : g <> 0.
+Hypothesis cle_scale : forall x y, cleb (g * x) (g * y) = cleb x y.    (* g is positive *)
+
+Lemma argmax_from_scale_gen l : forall i bi bv,
+  argmax_from C cleb (map (cmul g) l) i bi (g * bv) = argmax_from C cleb l i bi bv.
+Proof using cle_scale.
+  induction l as [|v t IH]; intros i bi bv; [reflexivity|].
+  cbn [map argmax_from]. rewrite cle_scale. destruct (cleb v bv); apply IH.
+Qed.
+
+Lemma argmax_scale_gen l : argmax C cleb (map (cmul g) l) = argmax C cleb l.
+Proof using cle_scale.
+  destruct l as [|v t]; [reflexivity|]. cbn [map argmax]. f_equal. apply argmax_from_scale_gen.
+Qed.
+
+Lemma nth_map_scale l i : nth i (map (cmul g) l) 0 = g * nth i l 0.
+Proof using Cf.
+  replace 0 with (g * 0) at 1 by ring. apply map_nth.
+Qed.
+
+(* parabolic_max(g * x) = (same interpolated index, g * value), for every array x *)
+Lemma pmax_scale x :
+  (forall i, argmax C cleb x = Some i -> i <> 0%nat -> i <> (length x - 1)%nat ->
+     parab_p0 C c1 cadd cmul copp cinv (nth (i - 1) x 0) (nth i x 0) (nth (i + 1) x 0) <> 0 \/
+     parab_p1 C c1 cadd cmul copp cinv (nth (i - 1) x 0) (nth (i + 1) x 0) = 0) ->
+  pmax (map (cmul g) x) =
+  match pmax x with Some (e, ip, mx) => Some (e, ip, g * mx) | None => None end.
+Proof using Cf ceqb_true ceqb_refl two_ne0 g_ne0 cle_scale.
+  intros Hnd. unfold parabolic_max. rewrite argmax_scale_gen, map_length.
+  destruct (argmax C cleb x) as [i|] eqn:E; [|reflexivity].
+  destruct ((i =? 0)%nat || (i =? length x - 1)%nat) eqn:Ee.
+  - now rewrite nth_map_scale.
+  - apply orb_false_iff in Ee. destruct Ee as [E0 E1].
+    apply Nat.eqb_neq in E0. apply Nat.eqb_neq in E1.
+    rewrite !nth_map_scale.
+    destruct (parab_scale g (nth (i - 1) x 0) (nth i x 0) (nth (i + 1) x 0) g_ne0) as [H1 H2].
+    { apply Hnd; [reflexivity|assumption|assumption]. }
+    now rewrite H1, H2.
+Qed.
+
 End Parab.
 
 (* ------------------------------------------------------------------------ *)
